@@ -341,7 +341,8 @@ def ob_step_true(kind, clause, cols=None):
                 goals += [("omega", z3.And(zint(d2.fields["omega"].shape[0]) == n, zint(d2.fields["omega"].shape[1]) == 2)),
                           ("p_omega", zint(d2.fields["p_omega"].shape[0]) == n)]
         return result(name, goals, pre, ex, t0, canary=canary)
-    return FnObligation(name, run, [RAR + "_rar_step_init.rar_step_true"])
+    # where the symbolic execution cannot follow (e.g. module-level state): the bounded native monitors of the real loop
+    return FnObligation(name, run, [RAR + "_rar_step_init.rar_step_true"], native_fallback=lambda: native_rar_monitor({}))
 
 
 def selection_goals(ex, kind, data, d2, mt, mx, cols=None):
@@ -627,6 +628,44 @@ def _native_rar_two_trainings():
     return None
 
 
+def _native_rar_two_setups_ranking():
+    """two refinement set-ups in one process with the same selected size and different numbers of candidates: each step
+    adds the highest-residual ones among *its own* candidates (recomputed from the generator's key with the public sampler)"""
+    import numpy as np, jax, warnings
+    import jax.numpy as jnp
+    import equinox as eqx
+    from jinns.solver._rar import init_rar, trigger_rar
+    from jinns.data._DataGenerators import DataGeneratorODE
+    from jinns.loss import LossODE, ODE
+    from jinns.parameters import Params
+
+    class Dyn(ODE):
+        def equation(self, t, u, params):
+            return (t * t + 0.1) * jnp.ones((1,))          # squared residual increasing in t: the top candidates are the largest times
+
+    class U(eqx.Module):
+        def __call__(self, t, params):
+            return jnp.zeros((1,))
+    with warnings.catch_warnings():
+        warnings.simplefilter("ignore")
+        loss = LossODE(u=U(), dynamic_loss=Dyn(), params=Params(nn_params=None, eq_params={}))
+    p0 = Params(nn_params=None, eq_params={})
+    for (S_, sel) in ((5, 3), (40, 3), (9, 3)):
+        rp = {"start_iter": 0, "update_every": 1, "sample_size_times": S_, "selected_sample_size_times": sel}
+        g = DataGeneratorODE(jax.random.PRNGKey(S_), 30, 0.0, 2.0, 2, "uniform", rp, 4)
+        g, _ = g.get_batch()
+        g, ft, ff = init_rar(g)
+        _, sub = jax.random.split(g.key)
+        cand = np.asarray(g.sample_in_time_domain(sub, S_)).ravel()
+        exp = np.sort(cand)[-sel:]
+        _, _, g2 = trigger_rar(0, loss, p0, g, ft, ff)
+        added = np.sort(np.asarray(g2.times).ravel()[4:4 + sel])
+        if not np.allclose(added, exp, atol=1e-6):
+            return [f"set-up with {S_} candidates and {sel} selected (after other set-ups with the same selected size in this process): "
+                    f"added times {np.round(added, 4).tolist()}, the {sel} highest-residual ones among its {S_} candidates are {np.round(exp, 4).tolist()}"]
+    return None
+
+
 def _native_rar_resume():
     """a second training started on an already refined generator (init_rar again): nothing that was active is lost"""
     import numpy as np, jax, warnings
@@ -705,6 +744,12 @@ def native_rar_monitor(vals):
         pass
     try:
         m = _native_rar_resume()
+        if m:
+            return m
+    except Exception:
+        pass
+    try:
+        m = _native_rar_two_setups_ranking()
         if m:
             return m
     except Exception:
